@@ -270,6 +270,8 @@ impl RankBin for RSNarrow {
         result += if sub_left == 0 {
             0
         } else {
+            #[cfg(qwt_verif)]
+            crate::verif::idx("rsn.line", sub_block >> 3, self.bv.n_lines());
             unsafe {
                 (*self.bv.data.get_unchecked(sub_block >> 3))
                     .get_word(sub_block % 8)
